@@ -9,7 +9,7 @@ use chumsky::input::{Checkpoint, Cursor, ValueInput};
 use chumsky::inspector::Inspector;
 use chumsky::prelude::*;
 use chumsky::{ConfigIterParser, IterParser};
-use cvm::ast::{self, Bounds, Coll, Sink, Val, G};
+use cvm::ast::{self, Bounds, Coll, Part, Sink, Val, G};
 use cvm::sem::Probes;
 use std::cell::Cell;
 use std::collections::BTreeSet;
@@ -696,6 +696,65 @@ macro_rules! with_bounds {
     }};
 }
 
+/// the sinks applied to an `IterChain` (a slimmer list than `apply_sink`: 20 link combinations are instantiated)
+fn apply_sink_chain<'a, I, C, P, PO>(p: P, sink: &Sink, pr: Probes) -> BP<'a, I, C>
+where
+    I: InK<'a>,
+    C: Cfg<'a, I>,
+    PO: 'a,
+    P: IterParser<'a, I, Val, Ex<'a, I, C>> + Parser<'a, I, PO, Ex<'a, I, C>> + Clone + 'a,
+{
+    match sink {
+        Sink::Vec => p.collect::<Vec<Val>>().map(Val::L).fin(),
+        Sink::Count => p.count().map(Val::N).fin(),
+        Sink::Bare => Parser::map(p, |_: PO| Val::U).fin(),
+        Sink::Exactly(1) => p.collect_exactly::<[Val; 1]>().map(|a| Val::L(a.into())).fin(),
+        Sink::Exactly(2) => p.collect_exactly::<[Val; 2]>().map(|a| Val::L(a.into())).fin(),
+        Sink::Foldl(init) => build::<I, C>(init, pr).foldl(p, |acc, x| Val::P(bx(acc), bx(x))).fin(),
+        Sink::Foldr(init) => p.foldr(build::<I, C>(init, pr), |x, acc| Val::P(bx(x), bx(acc))).fin(),
+        _ => unsupported("this sink on an iter_chain"),
+    }
+}
+
+/// build one link of an `IterChain` and hand the iterable parser to `$k`
+macro_rules! with_part {
+    ($I:ty, $C:ty, $part:expr, $pr:expr, |$q:ident| $k:expr) => {
+        match $part {
+            Part::Rep(item, bd) => {
+                let $q = build::<$I, $C>(item, $pr).repeated().at_least(bd.min as usize).at_most(bd.max.map_or(usize::MAX, |m| m as usize));
+                $k
+            }
+            Part::Sep(item, sep, bd, l, t) => {
+                let mut q = build::<$I, $C>(item, $pr).separated_by(build::<$I, $C>(sep, $pr)).at_least(bd.min as usize).at_most(bd.max.map_or(usize::MAX, |m| m as usize));
+                if *l {
+                    q = q.allow_leading();
+                }
+                if *t {
+                    q = q.allow_trailing();
+                }
+                let $q = q;
+                $k
+            }
+            Part::Opt(a) => {
+                let $q = build::<$I, $C>(a, $pr).or_not();
+                $k
+            }
+            Part::Iter(a) => {
+                let $q = build::<$I, $C>(a, $pr).map(ast::items_of).into_iter();
+                $k
+            }
+        }
+    };
+}
+
+fn build_chain<'a, I: InK<'a>, C: Cfg<'a, I>>(parts: &[Part], sink: &Sink, pr: Probes) -> BP<'a, I, C> {
+    match parts {
+        [p] => with_part!(I, C, p, pr, |a| apply_sink_chain::<I, C, _, _>(a, sink, pr)),
+        [p, q] => with_part!(I, C, p, pr, |a| with_part!(I, C, q, pr, |c| apply_sink_chain::<I, C, _, _>(a.then(c), sink, pr))),
+        _ => unsupported("iter_chain with more than two links"),
+    }
+}
+
 fn str_val(s: String) -> Val {
     Val::L(s.chars().map(Val::T).collect())
 }
@@ -950,6 +1009,7 @@ fn build0<'a, I: InK<'a>, C: Cfg<'a, I>>(g: &G, pr: Probes) -> BP<'a, I, C> {
         RepCtxMax(a) => C::rep_ctx_max(build::<I, C>(a, pr)),
         TryRepCtx(a) => C::try_rep_ctx(build::<I, C>(a, pr)),
         RepCtxPre(a, st, kind) => C::rep_ctx_pre(build::<I, C>(a, pr), *st, *kind),
+        IterChain(parts, sink) => build_chain::<I, C>(parts, sink, pr),
         IntoIter(a, sink) => {
             if matches!(sink, Sink::Str) {
                 return unsupported("Sink::Str on into_iter");
